@@ -296,6 +296,13 @@ func runC18(c *Ctx) {
 				}
 			}
 		}
+		// the select that offers a freshly received item directly must not block (the producer is waiting on chanIn)
+		for k, st := range s.states {
+			if st == "send:chanOut" && isItem(s.sel.States[k].Send) {
+				c.Check("C18-R3", "direct-handoff-never-blocks:"+name, s.sel.Pos(), !s.sel.Blocking,
+					"the direct hand-off of a received item to the output channel is a blocking select (no default case): with a slow consumer the worker stops reading the input channel and the producer is blocked")
+			}
+		}
 		if !s.sel.Blocking {
 			// default edge: all listed indices false -> must pass PushBack
 			hasSendItem := false
@@ -343,6 +350,47 @@ func runC18(c *Ctx) {
 	} else {
 		c.Unresolved("C18-R3", "chain.NewConcurrentQueue")
 	}
+	// R5: slice-backed notification queues of the btcd and neutrino clients: emptiness is the only length test
+	nQ := 0
+	for _, spec := range [][2]string{{"NeutrinoClient", "notificationHandler"}, {"RPCClient", "handler"}} {
+		fn := p.Func("chain", spec[0], spec[1])
+		if fn == nil {
+			c.Unresolved("C18-R5", "chain."+spec[0]+"."+spec[1])
+			continue
+		}
+		for _, b := range fn.Blocks {
+			if len(b.Instrs) == 0 {
+				continue
+			}
+			iff, ok := b.Instrs[len(b.Instrs)-1].(*ssa.If)
+			if !ok {
+				continue
+			}
+			f, okf := p.cmpForm(iff.Cond, true)
+			if !okf || len(f.L.Coef) != 1 {
+				continue
+			}
+			isQueueLen := false
+			var coef int64
+			for a, cf := range f.L.Coef {
+				if strings.HasPrefix(a, "call:len(") && strings.Contains(a, "notifications") {
+					isQueueLen = true
+					coef = cf
+				}
+			}
+			if !isQueueLen {
+				continue
+			}
+			nQ++
+			// accepted canonical forms: len == 0, len != 0, len > 0 (-len < 0), len < 1 (len - 1 < 0)
+			okForm := (f.Rel == "==" || f.Rel == "!=") && f.L.Konst == 0 ||
+				f.Rel == "<" && coef == -1 && f.L.Konst == 0 || f.Rel == "<" && coef == 1 && f.L.Konst == -1
+			c.Check("C18-R5", "queue-length-test-is-emptiness:"+spec[0], iff.Cond.Pos(), okForm,
+				"the notification queue's length is compared with something other than 'empty' ("+f.String()+"): the last queued notification is stranded or an empty queue is dequeued")
+		}
+	}
+	c.Floor("C18-R5", "length tests of the slice-backed queues", nQ, 4)
+
 	// R4: production user
 	qs := p.Func("chain", "ConcurrentQueue", "Stop")
 	users := 0
